@@ -66,6 +66,7 @@ func init() {
 	Plans["C19"] = planC19
 	Plans["C13"] = planC13
 	Plans["C18"] = planC18
+	Plans["C05"] = planC05
 }
 
 // Alphabets for S(L,Σ) (DESIGN 1.8) and token sets for token-mode sources.
@@ -342,5 +343,77 @@ func planC18(tier string, seed int64) (*Plan, error) {
 		"outside":   "Match/FindSubMatch (regexp over the reader), longer sources and histories, BlockReader.Value across lines",
 	}
 	p.Assumptions = []string{"oracle: the flattened remaining view computed from Position() and the source; each call is specified as a relation between the view before and after (no re-implementation of the cursor)"}
+	return p, nil
+}
+
+// convertFamilies builds the shared input families for whole-Convert/Parse harnesses.
+func convertFamilies(entry string, tier string, seed int64, cfgsS2, cfgsS3, cfgsDeep []string, nwin int, extra ...interface{}) ([]interp.Job, map[string]interface{}, error) {
+	var jobs []interp.Job
+	thorough := tier == "thorough"
+	for _, c := range cfgsS2 {
+		for n := 0; n <= 2; n++ {
+			jobs = append(jobs, job(entry, append([]interface{}{"cfg", c, "n", n}, extra...)...))
+		}
+	}
+	for _, c := range cfgsS3 {
+		jobs = append(jobs, job(entry, append([]interface{}{"cfg", c, "n", 3}, extra...)...))
+	}
+	la := 4
+	if thorough {
+		la = 6
+	}
+	anames := []string{"blocks", "inline", "fences", "entity", "lists"}
+	jobs = append(jobs, alphaJobs(entry, anames, la, cfgsDeep, extra...)...)
+	if thorough {
+		jobs = append(jobs, tokenJobs(entry, []string{"containers"}, 7, cfgsDeep, extra...)...)
+		jobs = append(jobs, tokenJobs(entry, []string{"inlines", "blocks2"}, 5, cfgsDeep, extra...)...)
+	} else {
+		jobs = append(jobs, tokenJobs(entry, []string{"contain5"}, 5, cfgsDeep, extra...)...)
+		jobs = append(jobs, tokenJobs(entry, []string{"inlines9", "blocks2"}, 4, cfgsDeep[:1], extra...)...)
+	}
+	jobs = append(jobs, tmplJobs(entry, coreTemplates, cfgsDeep[len(cfgsDeep)-1:], extra...)...)
+	docs, err := LoadCorpus()
+	if err != nil {
+		return nil, nil, err
+	}
+	jobs = append(jobs, windowJobs(entry, docs, seed, nwin, 1, cfgsDeep, extra...)...)
+	b := map[string]interface{}{
+		"S(2)":          "every byte string of length 0..2 (256 values per byte) x " + fmt.Sprint(cfgsS2),
+		"S(3)":          "every byte string of length 3 x " + fmt.Sprint(cfgsS3),
+		"S(L,alphabet)": fmt.Sprintf("every string of length %d over each alphabet %v x %v", la, alphabets, cfgsDeep),
+		"tokens":        fmt.Sprintf("token sequences (quick: 5 of contain5, 4 of inlines9/blocks2; thorough: 7 of containers, 5 of inlines/blocks2): %v", tokenSets),
+		"templates":     fmt.Sprintf("%d seed templates with a 2-byte fully symbolic window x %v", len(coreTemplates), cfgsDeep[len(cfgsDeep)-1:]),
+		"W(C,1)":        fmt.Sprintf("%d seeded (corpus document <=160 bytes, offset) pairs with one fully symbolic byte (VERIF_SEED=%d) x %v", nwin, seed, cfgsDeep),
+		"outside":       "longer free-form inputs, wider windows, user extensions",
+	}
+	return jobs, b, nil
+}
+
+func planC05(tier string, seed int64) (*Plan, error) {
+	p := &Plan{MustReach: []string{"done"}}
+	var cfgs []string
+	for _, e := range extSets {
+		for _, po := range []string{"", "autoid,attr"} {
+			cfgs = append(cfgs, cfg(e, po, ""))
+		}
+	}
+	core, gfm, all := cfg("core", "", ""), cfg("gfm", "", ""), cfg(allExt, "autoid,attr", "")
+	s3 := []string{core, gfm}
+	nwin := 150
+	if tier == "thorough" {
+		s3 = cfgs
+		nwin = 3000
+	}
+	jobs, b, err := convertFamilies("H_c05_parse", tier, seed, cfgs, s3, []string{core, all}, nwin)
+	if err != nil {
+		return nil, err
+	}
+	// table and setext shapes (the InsertAfter sites) over small alphabets
+	jobs = append(jobs, job("H_c05_parse", "cfg", gfm, "n", 5, "alpha", "a|-:\n"))
+	jobs = append(jobs, job("H_c05_parse", "cfg", core, "n", 6, "alpha", "a-=\n >"))
+	p.Jobs = jobs
+	b["extra"] = "S(5,{a,|,-,:,LF}) with GFM (tables) and S(6,{a,-,=,LF,space,>}) core (Setext fallbacks)"
+	p.Bounds = b
+	p.Rule = "every node of every tree returned by Parse on every path is checked through the public ast.Node accessors"
 	return p, nil
 }
